@@ -29,3 +29,8 @@ Definition smooth_left_band (align : Z) (fancy : bool) : Z := 2 * align + (if fa
    3..5 truncated after 1..3 scans, 6/7 incomplete scan scripts; bscan: buffered-image output pass *)
 Definition smoothing_active (mode bscan : Z) : bool :=
   ((3 <=? mode) && (mode <=? 7)) || ((mode =? 1) && (1 <=? bscan) && (bscan <=? 3)).
+
+(* turbojpeg-mp.c tj3Decompress8/12/16: row_pointer[i] = &dstBuf[anchor(i) * pitch].  The bottom-up anchor is
+   croppedHeight - i - 1 (generated flag true); a variant anchored at the scaled image height is kept for comparison *)
+Definition tj_row_anchor (bottomup anchored_at_cropped : bool) (outh croppedh i : Z) : Z :=
+  if bottomup then (if anchored_at_cropped then croppedh else outh) - i - 1 else i.
